@@ -652,6 +652,51 @@ func c17Retention(p *core.Program, r *core.Report) {
 				// len(name[s+1:x]) == 8, or the same length computed from the two positions: x-(s+1) == 8
 				return strings.HasSuffix(f, "==8=true") && mentionsEntry(f) && (strings.HasPrefix(f, "len(") || strings.Count(f, "strings.LastIndex(") >= 2)
 			}), "C17.retention", base+" dated", pos, "8-character date component", "a file without an 8-character date component can be deleted")
+			// the 8 characters are looked at before they are taken for a date: some dominating test is
+			// about the date component itself beyond its length — a parse of it whose error is heeded, a
+			// pattern match, a digit test. (What the date helpers make of eight arbitrary characters is a
+			// day in the year 2000: the file then looks decades old.)
+			wellFormed := hasFact(func(f string) bool {
+				if !mentionsEntry(f) || strings.HasSuffix(f, "==8=true") || strings.Contains(f, "conf.keepDays") || strings.HasPrefix(f, "strings.HasPrefix(") {
+					return false
+				}
+				// the fact is about the slice of the name between the last "-" and the last "."
+				return strings.Contains(f, "[") && strings.Contains(f, ":") && strings.Count(f, "strings.LastIndex(") >= 2
+			})
+			for _, a := range atoms {
+				be, ok := ast.Unparen(a.E).(*ast.BinaryExpr)
+				if !ok || (be.Op != token.EQL && be.Op != token.NEQ) {
+					continue
+				}
+				eid, ok := ast.Unparen(be.X).(*ast.Ident)
+				if nid, isNil := ast.Unparen(be.Y).(*ast.Ident); !ok || !isNil || nid.Name != "nil" {
+					continue
+				}
+				isNilOutcome := (be.Op == token.EQL) == a.V
+				if !isNilOutcome {
+					continue
+				}
+				eobj := info.ObjectOf(eid)
+				ast.Inspect(fi.Decl.Body, func(m ast.Node) bool {
+					as, ok := m.(*ast.AssignStmt)
+					if !ok || len(as.Rhs) != 1 || as.Pos() > call.Pos() {
+						return true
+					}
+					for _, l := range as.Lhs {
+						if lid, ok := l.(*ast.Ident); ok && info.ObjectOf(lid) == eobj {
+							if pc, ok := ast.Unparen(as.Rhs[0]).(*ast.CallExpr); ok {
+								for _, pa := range pc.Args {
+									if mentionsEntry(rv.str(pa)) {
+										wellFormed = true
+									}
+								}
+							}
+						}
+					}
+					return true
+				})
+			}
+			r.Check(wellFormed, "C17.retention", base+" date-shaped", pos, "the date component is tested for being a date", "the 8-character component is taken for a date without being looked at: a file of the logger's prefix whose last component merely has 8 characters (whatap-boot-settings.log) parses as a day in 2000 and is deleted as expired")
 			r.Check(hasFact(func(f string) bool {
 				// <now unit> - <file unit> > keepDays   (or  <now unit> > <file unit> + keepDays)
 				if !strings.HasSuffix(f, "=true") || !strings.Contains(f, "conf.keepDays") || !mentionsEntry(f) || !strings.Contains(f, "DateUnitNow()") {
